@@ -1610,6 +1610,20 @@ impl Property for C02 {
         v
     }
     fn check(&self, input: &Scenario, obs: &mut Obs, env: &Env) -> CheckResult {
+        default_handlers_are_atomic(obs, env)?;
         run_and_judge(input, obs, env, &judge_c02)
     }
+}
+
+/// The handler lance picks by default for every store scheme that offers an atomic create (all of them do: conditional
+/// put on s3 / gs / az / memory, local files) must be one of the atomic handlers, never the unsafe fallback.  The set of
+/// schemes is finite, so this is a complete enumeration; it runs with every case (it costs microseconds).
+fn default_handlers_are_atomic(obs: &mut Obs, env: &Env) -> CheckResult {
+    for url in ["s3://bucket/t.lance", "gs://bucket/t.lance", "az://container/t.lance", "memory://t.lance", "file:///tmp/t.lance", "file-object-store:///tmp/t.lance", "/tmp/t.lance", "relative/t.lance"] {
+        let handler = env.block_on(lance_table::io::commit::commit_handler_from_url(url, &None)).map_err(|e| Failure::new("default-handler-error", format!("commit_handler_from_url({url}): {e}")))?;
+        let name = format!("{handler:?}");
+        ensure!(!name.contains("Unsafe"), "default-handler-not-atomic", "the default commit handler for {url} is {name}: two writers can both publish the same version");
+    }
+    obs.inner += 1;
+    Ok(())
 }
